@@ -127,6 +127,32 @@ pub fn group_scheme<S: SizeLaw>(rec: &mut Rec, cfgs: Vec<KeyCfg>) {
             }
         }
         let pts = S::points(&cfg, rec.seed);
+        // every polynomial shape on its own: the size law does not depend on the content of the polynomial
+        // (zero, constant, polynomials that do not use all variables, sparse and dense ones)
+        for (sname, sp) in shapes.iter() {
+            for h in [None, hid] {
+                if h.is_some() && !S::HIDING {
+                    continue;
+                }
+                let one = lp::<S>("s", sp.clone(), None, h);
+                let cs = match commit_set::<S>(&keys, vec![one], rec.seed, 0) {
+                    Ok(c) => c,
+                    Err(_) => continue,
+                };
+                if let Ok(s1) = open_single::<S>(&keys, &cs, &[0], &pts[0].1, 0, rec.seed, 0) {
+                    rec.count_points(1);
+                    rec.op(2);
+                    let bp: BPf<S> = vec![s1.proof.clone()].into();
+                    let (bytes, reported) = sz(&bp);
+                    let want = 8 + S::proof_size(&cfg, &[&cs.polys[0]]);
+                    rec.obs(&format!("{}|shape|{}|{}", S::NAME, sname.split(|c| c == '(' || c == '[').next().unwrap(), bytes == want));
+                    if bytes != want || reported != bytes {
+                        ok = false;
+                        viol(rec, S::NAME, "proof-size", &id, format!("proof for the single polynomial '{}' (hiding {:?}) has {} bytes (serialized_size {}), the scheme's law gives {}", sname, h, bytes, reported, want));
+                    }
+                }
+            }
+        }
         for m in 1..=3usize {
             for k in 1..=3usize.min(pts.len()) {
                 let mut qs = QuerySet::<S::Pt>::new();
